@@ -20,7 +20,10 @@ require (
 
 require (
 	github.com/go-logr/logr v1.4.2 // indirect
+	github.com/transparency-dev/serverless-log v0.0.0-20240408141044-5d483a81bdb7 // indirect
+	github.com/transparency-dev/trillian-tessera v0.1.1 // indirect
 	golang.org/x/sys v0.32.0 // indirect
+	golang.org/x/text v0.24.0 // indirect
 	google.golang.org/genproto/googleapis/rpc v0.0.0-20250227231956-55c901821b1e // indirect
 	google.golang.org/protobuf v1.36.5 // indirect
 )
